@@ -123,12 +123,29 @@ Theorem C12_passthrough_after_queue : forall P c p c', reachable P c -> step P c
 Proof. exact passthrough_after_queue_lemma. Qed.
 Print Assumptions C12_passthrough_after_queue.
 
+(* queue_order also covers calls that arrive DURING the drain - including while the drain loop is
+   blocked inside a target that has not acknowledged the delivery of an earlier entry
+   (ADrainWait): such a call is neither queued nor delivered, it waits (PWaitReady) and by
+   C12_passthrough_after_queue it is passed through only after every queued call was processed *)
+Theorem C12_arrival_during_drain : forall P c p c' on a b, step P c (TPipe p) = Some c' ->
+  p_kind P p = Pipe on -> ppc c p = PInit -> pipe_target P c on = Some (a, b) -> aq_ph c a <> AQueueing ->
+  ppc c' p = PWaitReady /\ proot c' p = a /\ trace c' = EvIssue p :: trace c.
+Proof. exact arrival_during_drain_lemma. Qed.
+Print Assumptions C12_arrival_during_drain.
+
+Example C12_mid_drain_blocked :
+  let c := run ex_params_mid (init ex_params_mid) ex_sched_mid in
+  aq_ph c 0 = ADrainWait 1 /\ ppc c 1 = PDelivered /\ ppc c 2 = PQueued /\ ppc c 3 = PWaitReady /\
+  step ex_params_mid c (TPipe 3) = None /\ step ex_params_mid c (TImpl 0) = None.
+Proof. exact mid_drain_blocked. Qed.
+
 (* no_stuck (deadlock freedom), for every policy with MaxConcurrentCalls >= 1 (New guarantees it):
    in every reachable configuration in which some thread has begun and not finished (a start
    goroutine, an implementation goroutine, a pipelined call, Shutdown) either a step of the
    library's own code is enabled, or the application holds the ball: a method implementation is
-   executing (possibly un-acked) or a delivered pipelined call has not been returned by the
-   capability it was delivered to - and then that application step is enabled.
+   executing (possibly un-acked), a delivered pipelined call has not been returned by the
+   capability it was delivered to, or the drain loop is blocked in a target that has not acknowledged
+   delivery - and then that application step is enabled.
    Pipelined calls are delivered to capabilities outside the server (see docs: a result that
    contains the server's own capability is outside the model). *)
 Theorem C12_no_stuck : forall P c, 1 <= p_max P -> reachable P c -> live c ->
@@ -137,7 +154,7 @@ Proof. exact no_stuck_lemma. Qed.
 Print Assumptions C12_no_stuck.
 
 Theorem C12_app_can_move : forall P c, app_pending c ->
-  exists t, (exists x e, t = TRet x e \/ t = TTargetRet x e) /\ step P c t <> None.
+  exists t, (exists x e, t = TRet x e \/ t = TTargetRet x e \/ t = TDrainAck x) /\ step P c t <> None.
 Proof. exact app_can_move_lemma. Qed.
 Print Assumptions C12_app_can_move.
 
